@@ -568,7 +568,7 @@ func (k Keeper) convertCoinToEvmBornCoin(
 	// Emit tx logs of Mint event
 	err = ctx.EventManager().EmitTypedEvent(&evm.EventTxLog{Logs: evmResp.Logs})
 	if err == nil {
-		k.updateBlockBloom(ctx, evmResp, uint64(k.EvmState.BlockTxIndex.GetOr(ctx, 0)))
+		k.updateBlockBloom(ctx, evmResp, k.EvmState.BlockLogSize.GetOr(ctx, 0))
 	}
 
 	return &evm.MsgConvertCoinToEvmResponse{}, nil
@@ -669,7 +669,7 @@ func (k Keeper) convertCoinToEvmBornERC20(
 	// Emit tx logs of Transfer event
 	err = ctx.EventManager().EmitTypedEvent(&evm.EventTxLog{Logs: evmResp.Logs})
 	if err == nil {
-		k.updateBlockBloom(ctx, evmResp, uint64(k.EvmState.BlockTxIndex.GetOr(ctx, 0)))
+		k.updateBlockBloom(ctx, evmResp, k.EvmState.BlockLogSize.GetOr(ctx, 0))
 	}
 
 	return &evm.MsgConvertCoinToEvmResponse{}, nil
